@@ -1,6 +1,7 @@
 import CwPlus.Driver.Common
 import CwPlus.Driver.Cw20
 import CwPlus.Model.Pkg
+import CwPlus.Model.MsgWire
 /-!
 Scenario `pkg`: direct evaluations of the library / helper code of `/repo/packages`, of
 `contracts/cw4-group/src/helpers.rs` and of `contracts/cw20-ics20/src/amount.rs` (`Model/Pkg.lean`) on
@@ -282,6 +283,30 @@ def stepOp (m : Unit) (toks : List String) : Unit × StepResult :=
         | .ok (.cw20 x) => s!"cw20/{textEnc x}"
         | .error _ => "err"
       (m, { ok := some true, out := sent ++ [("res", rs)], tag := s!"intochecked.{a.str "kind"}.{res.tag}" })
+  | "decode" :: rest =>
+    -- the receiver-side `from_json` (harness: the real one) against the MsgWire decoders
+    let a := args rest
+    let data := parseHex (a.str "data")
+    let optN : Option Nat → String := fun o => match o with | some v => toString v | none => "-"
+    let res? : Option String :=
+      match a.str "kind" with
+      | "receive" => some (match MsgWire.decodeReceive data with
+        | .ok r => s!"ok/{textEnc r.sender}/{r.amount}/{if r.msg.isEmpty then "-" else Json.toHex r.msg}"
+        | .error _ => "err")
+      | "hook" => some (match MsgWire.decodeHook data with
+        | .ok ds => "ok/" ++ (if ds.isEmpty then "-" else
+            "+".intercalate (ds.map fun d => s!"{textEnc d.key}:{optN d.old}:{optN d.new}"))
+        | .error _ => "err")
+      | "transfer" => some (match MsgWire.decodeTransfer data with
+        | .ok t => s!"ok/{textEnc t.recipient}/{t.amount}"
+        | .error _ => "err")
+      | "transfer_from" => some (match MsgWire.decodeTransferFrom data with
+        | .ok t => s!"ok/{textEnc t.owner}/{textEnc t.recipient}/{t.amount}"
+        | .error _ => "err")
+      | _ => none
+    match res? with
+    | none => (m, badop)
+    | some res => (m, { ok := some true, out := [("res", res)], tag := s!"decode.{a.str "kind"}.{(res.splitOn "/").headD ""}" })
   | _ => (m, badop)
 
 def scen : Scen Unit Unit where
